@@ -11,6 +11,8 @@
 //	(c) queued.go  asynchronous send queue: real Upgrade scenario 4 (unknown net.Conn type,
 //	               BlockingModAsyncWrite, go HandleRead), writers / drainer / read loop / close race;
 //	               a few scenarios take the same path with BlockingModAsyncWrite=false
+//	    zqueue.go  (c) with negotiated permessage-deflate: bounded queue x 16-byte frame limit x
+//	               payloads whose deflated form needs more / fewer frames than the uncompressed one
 //	(d) order.go   2 concurrent writers on the engine-backed connection of (a) over a small socket
 //
 // Deviations from the plan in DESIGN: the inline executor is explored only in a few scenarios
@@ -261,13 +263,15 @@ func main() {
 	settle()
 	vkit.Main(&vkit.Spec{
 		Property: "C14", Level: "model_checking",
-		Rule: "one scenario = family x configuration. (a) epoll mode x server executor (goroutine per call, default task pool, inline) x client frame script (0-3 messages, one optionally fragmented, 1-2 bursts; conforming client that waits for the 101 response, or a frame in the same burst as the upgrade request, or bursts sent without waiting) x ending (peer FIN, peer RST, Close from a message handler, from OnOpen, from another thread, FIN and Close together), optionally with the handler echoing through WriteMessage, on the real nbhttp engine + Upgrader.Upgrade scenario 1; (b) writer scripts (WriteMessage of 2F+1 bytes = 3 fragments, single frames, pings, a WriteFrame sequence) of 2-3 threads on a direct-mode server Conn; (c) the same writers on a Conn from Upgrade scenario 4 (unknown net.Conn type, read loop started by Upgrade) with the send queue x queue limit x failing k-th write x close source (none, peer EOF, Close + virtual close delay, a writer that closes) x inbound messages (with echo), and without the send queue; (d) two writers on the engine-backed Conn x socket capacity (everything fits / 16 bytes) x no close / Close from another thread. Every interleaving within the preemption bound is executed on the real code. Non-trivial = the scenario delivered messages and ran OnClose (a) / put messages on the wire while a second writer was inside its call between two fragments of the first (b, d) / put messages on the wire or delivered inbound messages (c)",
+		Rule: "one scenario = family x configuration. (a) epoll mode x server executor (goroutine per call, default task pool, inline) x client frame script (0-3 messages, one optionally fragmented, 1-2 bursts; conforming client that waits for the 101 response, or a frame in the same burst as the upgrade request, or bursts sent without waiting) x ending (peer FIN, peer RST, Close from a message handler, from OnOpen, from another thread, FIN and Close together), optionally with the handler echoing through WriteMessage, on the real nbhttp engine + Upgrader.Upgrade scenario 1; (b) writer scripts (WriteMessage of 2F+1 bytes = 3 fragments, single frames, pings, a WriteFrame sequence) of 2-3 threads on a direct-mode server Conn; (c) the same writers on a Conn from Upgrade scenario 4 (unknown net.Conn type, read loop started by Upgrade) with the send queue x queue limit x failing k-th write x close source (none, peer EOF, Close + virtual close delay, a writer that closes) x inbound messages (with echo), and without the send queue; (c-deflate) the bounded send queue with permessage-deflate negotiated through the real Upgrade (EnableCompression + extension header) and a 16-byte frame limit: a writer queues 0-3 small messages and then one big message whose class and length decide how many frames it needs AFTER deflate - incompressible (deterministic pseudo-random bytes, verified when the scenario list is built to deflate to MORE bytes than the input) of every length kF-d, d in 0..6, which needs one frame more than its uncompressed length suggests for d<6, and compressible (shrinks below a frame boundary) - x queue limit leaving exactly k or k+1 (fc or fu) free slots x a follow-up message written after the queue drained, plus variants with a ping in the queue, a second writer, a racing close; (d) two writers on the engine-backed Conn x socket capacity (everything fits / 16 bytes) x no close / Close from another thread. Every interleaving within the preemption bound is executed on the real code. Non-trivial = the scenario delivered messages and ran OnClose (a) / put messages on the wire while a second writer was inside its call between two fragments of the first (b, d) / put messages on the wire or delivered inbound messages (c) / put RSV1 messages on the wire and had the follow-up message accepted (c-deflate)",
 		Assumptions: []string{
 			"sequentially consistent interleavings at lock / atomic / channel / syscall / timer operations and at the harness points (fake conn Write/Read/Close, inside every callback); unsynchronised field accesses are interleaved only for the fields the overlay generator lists as racy (cmd/ovgen racyFields: websocket.Conn.closed, nbio.Conn.closed, ... - not nbio.Conn.session, which Upgrade swaps without a lock)",
 			"covered upgrade paths: scenario 1 (*nbio.Conn owned by the engine, all three epoll modes, IOModNonBlocking) and scenario 4 (unknown net.Conn type: blocking mode with own read loop and send queue). NOT covered: scenarios 2, 3 and the transfer-to-poller variants need a real *net.TCPConn / llib *tls.Conn on real descriptors and real goroutines, out of reach of the cooperative scheduler; their ordering rests on the same Execute / MustExecute queue, Engine.SyncCall and send-queue code explored here",
 			"unit of atomicity on the wire: one WriteMessage call (all its fragments) or one WriteFrame call (one frame); a multi-call WriteFrame sequence is only required to stay whole when the other writers send control frames (RFC 6455 allows those between fragments) - nbio has no API to reserve the connection across calls",
 			"order on the wire is only constrained by real-time precedence (a call that returned before another was made) and program order of one thread",
 			"queued mode: a message accepted (nil) may be lost when a close begins before the drainer wrote it (the queue is dropped by CloseAndClean); required: what is on the wire is a prefix-closed, duplicate-free, non-interleaved sequence of whole messages (the last one may be cut by the close), no accepted message is skipped in favour of a later one, everything accepted comes out when no close happens, nothing is accepted by the conn after OnClose started. A Write *call* of the drainer that finds the conn already closed (fails, writes nothing) is counted, not reported",
+			"bounded queue (BlockingModSendQueueMaxSize>0): a WriteMessage refused with ErrMessageSendQuqueIsFull must leave none of its frames on the wire, and everything accepted before and after it comes out whole, exactly once, in order; refusing a message that would have fitted is not judged (counted: z_followup_accepted), exceeding the bound is not judged either",
+			"compression scenarios: the wire is judged by the reference decoder (wsgen.ParseFrames + wsgen.Judge with RFC 7692 inflate of RSV1 messages, compress/flate only); the reference deflate of each payload (wsgen.Deflate, same level) is used only to attribute frames to messages - the first failure being the verdict, a frame that fits no message is reported last (wire-unattributed-frame) and does not occur on the unchanged tree, i.e. nbio's compressor output equals the reference byte for byte in these scenarios",
 			"a client that sends frames in the same burst as its upgrade request violates RFC 6455 4.1; for it only the ordering clauses are judged (nbio hands those bytes to the HTTP parser and closes)",
 			"callback part: loss of inbound messages is C02/C12's subject; here delivered messages must be an in-order prefix of the wire",
 			"the close callback is owed once the connection has ended and Upgrade had succeeded",
